@@ -667,7 +667,16 @@ def run(run):
             run.held('BASECHAIN', 'linkClusters builds one chain of exactly the bases', lk.where(), '%d abstract executions: every stream of up to 5 slots x base pattern x direction' % cases)
     except AnalysisBroken as ex:
         run.broken('BASECHAIN', 'linkClusters builds one chain of exactly the bases', str(ex), lk.where())
-    from . import c03
+    from . import c03, c19
+    try:
+        cases_, bad_ = c19.reverse_exec(run, fx, 5)      # linkClusters(m_first, m_last) chains the bases up to m_last: reverseSlots must leave m_last at the real end (shared with C19)
+        rs_ = fx.one('graphite2::Segment::reverseSlots')
+        if bad_:
+            run.violated('BASECHAIN', 'reverseSlots leaves m_first / m_last at the ends of the stream (interpreted)', rs_.where(), bad_)
+        else:
+            run.held('BASECHAIN', 'reverseSlots leaves m_first / m_last at the ends of the stream (interpreted)', rs_.where(), '%d streams x mark placements' % cases_)
+    except O_.AnalysisBroken as ex:
+        run.broken('BASECHAIN', 'reverseSlots leaves m_first / m_last at the ends of the stream (interpreted)', str(ex), '')
     c03.slot_ctor_clean(run, fx, 'DETACH')
     # TEMP_COPY marks its copy (shared with C03 LINKSYM)
     tc = vm.handlers['temp_copy']
